@@ -461,7 +461,7 @@ impl Config for Adversarial {
         crate::crumbs::set_config(&self.label());
         let t0 = std::time::Instant::now();
         let q = self.tier == Tier::Quick;
-        let seqs = all_seqs(if q { 4 } else { 5 });
+        let seqs = all_seqs(if q { 4 } else { 6 });
         env::reset();
         let (bm, bs) = (alloc_bound_map(), alloc_bound_set());
         let runs = AtomicU64::new(0);
@@ -524,7 +524,7 @@ impl Config for Adversarial {
             wall_s: t0.elapsed().as_secs_f64(),
             ..Default::default()
         };
-        rep.detail = json!({"input_sequences": seqs.len(), "max_entries": if q { 4 } else { 5 }, "alphabet": "3 keys x 2 values", "claimed_hints": HINTS.iter().map(|h| format!("{:?}", h)).collect::<Vec<_>>(),
+        rep.detail = json!({"input_sequences": seqs.len(), "max_entries": if q { 4 } else { 6 }, "alphabet": "3 keys x 2 values", "claimed_hints": HINTS.iter().map(|h| format!("{:?}", h)).collect::<Vec<_>>(),
             "runs": rep.executions, "allocation_bound_map_bytes": bm, "allocation_bound_set_bytes": bs, "distinct_nontrivial": rep.executions});
         rep.samples.push(json!({"kind": "map", "syms": [0, 3, 1, 0], "hint": "Some(usize::MAX)", "fail_at": 5}));
         if let Some((rp, m)) = viol.into_inner().unwrap() {
